@@ -123,7 +123,7 @@ def run_program(ctx, prog, rng, pidx):
                                  cls_name='GenOp%d%s' % (prog['uid'], 'X' if bk else 'N'), caller_context=cc)
                 builts[bk] = res.live
                 w = {'gen_seed': prog['gen_seed'], 'program': describe(prog), 'faults': fr.faults_json(faults), 'extractor': extractor, 'cassette': kind,
-                     'caller_context': cc}
+                     'caller_context': cc, 'zone': __import__('os').environ.get('TZ')}
                 saves = [e for e in res.spy_events if e[0] == 'save']
                 ctx.case({'p': prog['gen_seed'], 'f': fr.faults_json(faults), 'x': extractor}, nontrivial=bool(saves))
                 if len(saves) != 1:
@@ -183,6 +183,28 @@ def gen_c18_program(seed):
     return p
 
 
+import contextlib
+
+
+@contextlib.contextmanager
+def process_zone(zone):
+    import os
+    import time
+    old = os.environ.get('TZ')
+    if zone is not None:
+        os.environ['TZ'] = zone
+        time.tzset()
+    try:
+        yield
+    finally:
+        if zone is not None:
+            if old is None:
+                os.environ.pop('TZ', None)
+            else:
+                os.environ['TZ'] = old
+            time.tzset()
+
+
 def run(ctx):
     n = 9 if ctx.quick else 160
     base = (ctx.seed + 1) * 104729
@@ -191,7 +213,11 @@ def run(ctx):
         if not ctx.mine(i):
             continue
         prog = gen_c18_program(base + i)
-        run_program(ctx, prog, rng, i)
+        # the recording process does not always run in UTC
+        zone = [None, 'Asia/Tokyo', None, 'America/Los_Angeles', None, 'Asia/Kolkata'][i % 6]
+        with process_zone(zone):
+            ctx.count('programs_in_zone_%s' % (zone or 'UTC'))
+            run_program(ctx, prog, rng, i)
         if i < 2:
             ctx.sample({'program': describe(prog), 'terminations': TERMINATIONS, 'extractors': fr.EXTRACTORS})
     if not ctx.counters.get('metadata_checked'):
@@ -200,4 +226,5 @@ def run(ctx):
 
 def replay(ctx, w):
     prog = gen_c18_program(w['gen_seed'])
-    run_program(ctx, prog, random.Random(0), {'memory': 0, 'file': 1, 's3': 2}.get(w.get('cassette'), 0))
+    with process_zone(w.get('zone')):
+        run_program(ctx, prog, random.Random(0), {'memory': 0, 'file': 1, 's3': 2}.get(w.get('cassette'), 0))
